@@ -124,7 +124,10 @@ func main() {
 				vevid.OpFailed("flush: %v", err)
 			}
 		}
-		b.Engine.Close()
+		// Box.Close also stops the worker pools of the database: the pools of the database object opened next count
+		// their live workers in the same gauges (registered under the database's name), and stopping them at the end
+		// would wait for the lingering workers of this one
+		b.Close()
 		removed := 0
 		_ = filepath.Walk(f.Scratch+"/eng", func(p string, info os.FileInfo, err error) error {
 			if err == nil && !info.IsDir() && strings.HasSuffix(p, ".sst") && filepath.Base(filepath.Dir(p)) == "tv" {
